@@ -1,10 +1,12 @@
 //! One module per property; each `run` executes this shard's share of the workload.
 use crate::report::{Ctx, Reporter};
 
+pub mod c01;
 pub mod c18;
 
 pub fn run(id: &str, ctx: &Ctx, rep: &mut Reporter) -> bool {
     match id {
+        "C01" => c01::run(ctx, rep),
         "C18" => c18::run(ctx, rep),
         _ => return false,
     }
